@@ -10,7 +10,11 @@ composition, over all delivery schedules and read sequences (`Uquic.Spec.StreamP
 
 Scope of the `_partial` theorems: classic RESET_STREAM semantics (`Classic`: the peer does not support
 RESET_STREAM_AT, or the application never calls SetReliableBoundary). With a reliable boundary the full
-statement is FALSE of the code as it is (`fin_below_final_size_witness`, finding C01-fin-after-reset-at).
+statement is FALSE of the code as it is (`fin_below_final_size_witness`, finding C01-fin-after-reset-at);
+what does hold there — the DATA clause: frame data = written[off, off+len), bytes read are a prefix of
+bytes written — is `sent_data_faithful` / `read_is_prefix`, for every history in which
+SetReliableBoundary is not called on a stream that was already reset (`boundary_after_reset_witness`
+shows that this API misuse does corrupt the stream).
 
 The liveness sentence of the property ("transfers complete while the path is not dead for longer than the
 idle timeout") is NOT a theorem: it needs timers and goroutines. `no_byte_forgotten` is its safety core.
@@ -18,6 +22,7 @@ idle timeout") is NOT a theorem: it needs timers and goroutines. `no_byte_forgot
 import Uquic.Proofs.SendCompose
 import Uquic.Proofs.SendDgram
 import Uquic.Proofs.SendRefReasm
+import Uquic.Proofs.SendResetAt
 
 namespace Uquic.Props.C01
 open Uquic.Model.Stream.Send Uquic.Spec.SendRun Uquic.Spec.StreamPipe Uquic.Proofs.Send
@@ -102,6 +107,43 @@ example : ∃ ops, Classic false ops ∧ (run (init 4 false) ops).emitted.length
   ⟨[.write (List.replicate 40 1), .pop 30 1000 false, .lost 0, .pop 12 1000 false, .close, .pop 100 1000 true, .pop 100 1000 false],
    .inl rfl, by decide, by decide⟩
 
+/-- `sent_data_faithful`: the data clause for ALL reset semantics, RESET_STREAM_AT included (CancelWrite
+    with a reliable offset keeps sending and retransmitting the reliable part, truncating frames at the
+    reliable size): after every history in which SetReliableBoundary is never called on an already reset
+    stream, every frame ever returned by `popStreamFrame` carries exactly `written[off, off+len)`. -/
+theorem sent_data_faithful (sid : Nat) (sup : Bool) (ops : List Op)
+    (hc : NoBoundaryAfterReset (init sid sup) ops) :
+    ∀ f ∈ (run (init sid sup) ops).emitted, f.data <+: (run (init sid sup) ops).written.drop f.offset :=
+  (rinv_run_from (rinv_init sid sup) ops hc).em
+
+/-- The side condition is needed: SetReliableBoundary *after* CancelWrite (API misuse) makes the code send
+    bytes of a later Write at the offset of bytes that were dropped by the reset. -/
+def boundaryMisuseOps : List Op :=
+  [.write [1, 2, 3], .write (List.replicate 1450 9), .cancel 0, .wake, .boundary, .pop 20 1000 false]
+
+set_option maxRecDepth 200000 in
+theorem boundary_after_reset_witness :
+    ∃ f ∈ (run (init 0 true) boundaryMisuseOps).emitted,
+      ¬ (f.data <+: (run (init 0 true) boundaryMisuseOps).written.drop f.offset) := by
+  decide
+
+-- non-vacuity: a RESET_STREAM_AT history (boundary, more data, CancelWrite, the reliable part still goes out, is lost, is retransmitted)
+example : NoBoundaryAfterReset (init 4 true) [.write [1, 2, 3, 4, 5, 6], .boundary, .write [7, 8, 9], .cancel 5, .pop 11 1000 false, .lost 0, .pop 100 1000 false] ∧
+    (run (init 4 true) [.write [1, 2, 3, 4, 5, 6], .boundary, .write [7, 8, 9], .cancel 5, .pop 11 1000 false, .lost 0, .pop 100 1000 false]).emitted.length = 2 := by
+  refine ⟨?_, by decide⟩
+  intro pre post h
+  have : pre = [.write [1, 2, 3, 4, 5, 6]] := by
+    match pre, h with
+    | [], h => simp at h
+    | [_], h => simp at h; simp [h.1]
+    | _ :: _ :: [], h => simp at h
+    | _ :: _ :: _ :: [], h => simp at h
+    | _ :: _ :: _ :: _ :: [], h => simp at h
+    | _ :: _ :: _ :: _ :: _ :: [], h => simp at h
+    | _ :: _ :: _ :: _ :: _ :: _ :: [], h => simp at h
+    | _ :: _ :: _ :: _ :: _ :: _ :: _ :: _, h => simp at h
+  subst this; decide
+
 /-! ## 3. nothing written is ever forgotten -/
 
 /-- `no_byte_forgotten`: while the stream is neither reset nor shut down, after every history every
@@ -144,6 +186,16 @@ theorem read_is_prefix_partial (A : Reassembler) (C : ReassemblyContract A) (sid
     (p.eofSeen = true → p.s.finishedWriting = true ∧ A.out p.r = p.s.written) := by
   have h := pipeInv_run C (pipeInv_init A C sid sup) ops hc
   exact ⟨out_prefix C h.reach h.consistent, h.eof⟩
+
+/-- `read_is_prefix` for ALL reset semantics (RESET_STREAM_AT included): whatever the sender history
+    (without SetReliableBoundary on an already reset stream), the delivery schedule and the reads, the bytes
+    read are a prefix of the bytes written. (The EOF clause is the `_partial` theorem above: under
+    RESET_STREAM_AT it is false of the code, see `fin_below_final_size_witness`.) -/
+theorem read_is_prefix (A : Reassembler) (C : ReassemblyContract A) (sid : Nat) (sup : Bool)
+    (ops : List PipeOp) (hc : NoBoundaryAfterReset (init sid sup) (sndOps ops)) :
+    A.out (pipeRun (pipeInit A sid sup) ops).r <+: (pipeRun (pipeInit A sid sup) ops).s.written := by
+  have h := pipeInvR_run C (pipeInvR_init A C sid sup) ops hc
+  exact out_prefix C h.reach h.consistent
 
 /-- `read_complete`: if (after any history) the delivered frames cover every byte written and a FIN
     frame was delivered, then reading obtains every byte: a `read n` returns the next
